@@ -384,12 +384,12 @@ theorem sortedFields_names {fs fs' : List (Bytes × GoVal)} (he : fs.map (·.1) 
 
 /-- the items a loop visits, for two related collections: related item by item, or the same
     `unmodelled` on both sides -/
-theorem loopItems_mp_cases {v v' : GoVal} (h : MP v v') :
-    (∃ xs xs', loopItems v = .ok xs ∧ loopItems v' = .ok xs' ∧ MPL xs xs') ∨
-    (loopItems v = loopItems v' ∧ ∀ xs, loopItems v ≠ .ok xs) := by
+theorem loopItems_mp_cases {budget : Int} {v v' : GoVal} (h : MP v v') :
+    (∃ xs xs', loopItems budget v = .ok xs ∧ loopItems budget v' = .ok xs' ∧ MPL xs xs') ∨
+    (loopItems budget v = loopItems budget v' ∧ ∀ xs, loopItems budget v ≠ .ok xs) := by
   cases h with
   | refl =>
-    cases hl : loopItems v with
+    cases hl : loopItems budget v with
     | ok xs => exact .inl ⟨xs, xs, rfl, rfl, MPL.refl xs⟩
     | _ => exact .inr ⟨rfl, by simp⟩
   | slice t hl => exact .inl ⟨_, _, rfl, rfl, hl⟩
